@@ -133,9 +133,9 @@ def ob_md_marginal(shape, remain, lo):
         from quara.objects.multinomial_distribution import MultinomialDistribution as MD
         ps = _tensor(I, shape)
         md = MD(ps.copy(), shape)
-        T = np.asarray(md.ps, dtype=object).reshape(shape)     # the distribution the object denotes
+        T = np.array(md.ps, dtype=object, copy=True).reshape(shape)     # the distribution the object denotes (a snapshot)
         mg = md.marginalize(remain)
-        out = []
+        out = [Eq("the joint distribution is unchanged by marginalize", np.asarray(md.ps, dtype=object).reshape(shape), T, 0.0)]
         asc = sorted(remain)
         variants = []
         for order in ([asc] if asc == remain else [asc, remain]):
@@ -173,7 +173,7 @@ def ob_md_conditional(shape, cvars, lo):
         from quara.objects.multinomial_distribution import MultinomialDistribution as MD
         ps = _tensor(I, shape)
         md = MD(ps.copy(), shape)
-        T = np.asarray(md.ps, dtype=object).reshape(shape)
+        T = np.array(md.ps, dtype=object, copy=True).reshape(shape)   # a snapshot: the reference must not follow a later write to md.ps
         mg = md.marginalize(cvars)
         out = []
         for cv in np.ndindex(tuple(shape[k] for k in cvars)):
@@ -204,6 +204,7 @@ def ob_md_conditional(shape, cvars, lo):
                 out.append(Eq(f"marginal{cv} * conditional{ridx} == joint", pm * pc, T[tuple(full)], 1e-9))
                 s = s + pc
             out.append(Holds(f"conditional{cv} sums to 1", SBool.of(s <= 1 + 1e-9) & SBool.of(s >= 1 - 1e-9)))
+            out.append(Eq(f"the joint distribution is unchanged by conditionalize{cv}", np.asarray(md.ps, dtype=object).reshape(shape), T, 0.0))
         return out
     return FnOb(_ps_inputs(n, lo), run, assume=lambda I: _sum1(I, n, lo), max_paths=300, expect_nonlinear=True,
                 exact_timeout_ms=120000, tv_sampler=_simplex_sampler(n, max(lo, 1e-3)))
